@@ -46,23 +46,30 @@ _rsx_cache = {}
 _src_cache = {}
 
 
+def _key(relfile):
+    # caches are keyed by path + mtime so that they never need clearing (units are built from parallel threads)
+    p = os.path.join(REPO, relfile)
+    if not os.path.exists(p):
+        raise LostAnchor(f"source file {relfile} missing")
+    return (p, os.stat(p).st_mtime_ns)
+
+
 def src_bytes(relfile):
-    if relfile not in _src_cache:
-        with open(os.path.join(REPO, relfile), "rb") as f:
-            _src_cache[relfile] = f.read()
-    return _src_cache[relfile]
+    k = _key(relfile)
+    if k not in _src_cache:
+        with open(k[0], "rb") as f:
+            _src_cache[k] = f.read()
+    return _src_cache[k]
 
 
 def rsx(relfile):
-    if relfile not in _rsx_cache:
-        p = os.path.join(REPO, relfile)
-        if not os.path.exists(p):
-            raise LostAnchor(f"source file {relfile} missing")
-        r = subprocess.run([RSX, p], capture_output=True, text=True)
+    k = _key(relfile)
+    if k not in _rsx_cache:
+        r = subprocess.run([RSX, k[0]], capture_output=True, text=True)
         if r.returncode != 0:
             raise LostAnchor(f"rsx failed on {relfile}: {r.stderr.strip()}")
-        _rsx_cache[relfile] = json.loads(r.stdout)
-    return _rsx_cache[relfile]
+        _rsx_cache[k] = json.loads(r.stdout)
+    return _rsx_cache[k]
 
 
 def find_item(relfile, kind, path, nth=0):
